@@ -3,7 +3,7 @@ from lib import gen
 from checks import machine
 
 LEVEL = "model_checking"
-FAMILIES = "v2".split(",")
+FAMILIES = "v2,v2shared".split(",")
 
 
 def run(ck):
